@@ -33,7 +33,11 @@ META = {
             "{0,5,6,12,13}; trie: all 6^L literal sequences for the 24 core configurations (quick: L=5 sop / 4 rtb for all, L=6 / 5 for a random subset; thorough: L=6..7 sop / 5 rtb for all, L=8 / 6 for a subset); "
             "num: random walks over magnitude ladders with exact-boundary moves (ratio == decreasing, loss == tol, 0, "
             "negative), dtypes f32/f64/int/python float, batch shapes up to rank 2, resets and post-stop steps; "
-            "drv: scripted + genuine optimizers/LQR/kNN, 1..3 calls per object. A case is non-trivial when it has >= 2 "
+            "drv: scripted + genuine optimizers/LQR/kNN, 1..4 calls per object with every per-call argument varied; "
+            "hardening: deterministic corpus first (hand-written corners + every stream with a fixed generator), extreme "
+            "magnitudes/budgets and long histories, per-segment kind/dtype/shape after reset, loss layouts fresh/slice/"
+            "strided/expanded/in-place-reused buffer, purity + attribute oracles, interleaved live controllers, "
+            "item-wise oracle for mixed-regime batches. A case is non-trivial when it has >= 2 "
             "steps; distinct by (stream, configuration, letter word / value-kind, dtype, shape).",
     "trusted": ["torch comparison/promotion semantics (python scalar thresholds are cast to the tensor dtype)",
                 "python object state of a controller is its __dict__ (state merging in the graph stream relies on it)"],
@@ -169,12 +173,14 @@ def run_graph(ctx: Ctx, kind: str, cfgs, depth: int):
             d = rng.choice([0.125, 1.0, 2.0 ** -10])
             cfg = {"steps": steps, "patience": patience, "d": d}
             opt = FakeOpt(has_reject)
-            ctl = new_sop(cfg, opt)
+            ctl = guarded(ctx, dict(cfg, kind="graph", ctl="sop"), new_sop, cfg, opt)
             nlet = 6
         else:
             cfg = {"steps": steps, "patience": patience, "d": 1.0, "tol": 1.0}
-            ctl = new_rtb(cfg)
+            ctl = guarded(ctx, dict(cfg, kind="graph", ctl="rtb"), new_rtb, cfg)
             nlet = 7  # + reset
+        if ctl is None:
+            continue
         init_key = key_of(ctl, kind)
         frontier = {init_key: U.snap(ctl)}
         seen = {init_key}
@@ -296,7 +302,7 @@ def run_trie(ctx: Ctx, kind: str, cfgs, L: int):
         if st != "ok":
             raise common.InfraError(f"trie reply: {rep[:100]}")
         model = [int(t) for t in toks]
-        walk_trie(ctx, p, model)
+        guarded(ctx, p, walk_trie, ctx, p, model)
         ctx.note_case(("trie", kind, p["steps"], p["patience"], L), True)
     if plans:
         ctx.sample({"stream": f"trie.{kind}", **plans[0]})
@@ -411,7 +417,10 @@ def gen_value(rng, l, D, TOL, dtype, is_int, extreme=False):
         fr = Fraction(l) / (1 + Fraction(D)) if Fraction(D) != -1 else Fraction(l)
         x = representable(fr, dtype)
         if x is None or rng.random() < 0.4:
-            x = float(fr) * (1 + rng.choice([-1, 1]) * 2.0 ** -rng.choice([8, 16, 30]))
+            try:
+                x = float(fr) * (1 + rng.choice([-1, 1]) * 2.0 ** -rng.choice([8, 16, 30]))
+            except OverflowError:
+                x = l
     elif m < 0.50:
         x = l
     elif m < 0.60:
@@ -433,17 +442,6 @@ def gen_value(rng, l, D, TOL, dtype, is_int, extreme=False):
 SHAPES = [[1], [2], [3], [4], [2, 2], [1, 3], [3, 1], [2, 1, 2], [5], [3, 2]]
 LAYOUTS = ["fresh", "fresh", "fresh", "slice", "strided", "expanded"]
 STATE_KEYS = {"steps", "patience_count", "_continual", "last"}
-ALIAS_SITE = "pypose/utils/stepper.py:ReduceToBason.step"
-
-
-def alias_matcher(kf, case) -> bool:
-    """recognises exactly the aliasing defect of ReduceToBason.step (`self.last = loss` keeps a reference): the
-    caller delivered consecutive losses through ONE tensor updated in place and the deviation from the documented
-    behaviour is exactly what `last is loss` predicts."""
-    return (kf.get("property") == "C20" and "ReduceToBason.step" in str(kf.get("site", ""))
-            and "alias" in str(kf.get("predicate", "")).lower()
-            and case.get("site") == ALIAS_SITE and int(case.get("reused_buffer_steps", 0)) > 0
-            and case.get("only_alias_explained") is True)
 
 
 def draw_segcfg(rng, allow_int=True):
@@ -497,7 +495,8 @@ def gen_rtb_case(ctx: Ctx, n_max, force=None, long=False):
             elif long and last is not None and rng.random() < 0.9:
                 # long plateaus / slow decreases so that counters really grow
                 f = rng.choice([1.0, 1.0, 1.0, 0.5, 0.999])
-                vals = [U.rnd(x * f, dtype) for x in last]
+                vals = [float(int(x * f)) if seg["vkind"] == "pyint" else U.rnd(x * f, dtype) for x in last]
+                vals = [0.0 if v == 0 else v for v in vals]   # no -0.0 (underflow)
             elif coordinated and B > 1 and rng.random() < 0.6:
                 s_ = rng.randrange(1 << 30)
                 import random as _r
@@ -672,7 +671,6 @@ def check_rtb_num(ctx: Ctx, case, model_reply=None) -> bool:
         ctx.fail(case, "purity: " + bad)
         ok = False
     # the property's statement per segment
-    spec_ok = True
     for si, sg in enumerate(segs):
         fresh = spec_trace_segment("rtb", case["steps"], case["patience"], sg["obs"], 0)
         fs = U.spec_first_stop("rtb", case["steps"], case["patience"], sg["obs"])
@@ -682,20 +680,18 @@ def check_rtb_num(ctx: Ctx, case, model_reply=None) -> bool:
         steps_ok = all(U.st_decode(c)[0] == i + 1 for i, c in enumerate(sg["codes"]))
         if got == fresh and steps_ok:
             continue
-        ok = spec_ok = False
+        ok = False
         j = next((i for i, (a, b) in enumerate(zip(got, fresh)) if a != b), 0)
         what = (f"segment {si} (after {'reset' if si else 'construction'}; {sg['cfg']['vkind']} {sg['cfg']['dtype']} "
                 f"{sg['cfg']['shape']}), step {j + 1}: (continual, patience_count)={got[j] if got else None}, a fresh "
                 f"controller per the documented causes gives {fresh[j] if fresh else None}")
         alias = spec_trace_segment("rtb", case["steps"], case["patience"], sg["alias_obs"], 0)
         if sg["reused"] > 0 and got == alias and steps_ok:
-            ctx.fail(dict(case, segment=si, site=ALIAS_SITE, reused_buffer_steps=sg["reused"], only_alias_explained=True),
-                     "alias: the losses were delivered through one tensor updated in place; stepper.last is that same "
-                     "tensor, so (last - loss) is always 0; " + what, known_matcher=alias_matcher)
+            ctx.fail(dict(case, segment=si), "alias: the losses were delivered through one tensor updated in place and the "
+                     "stepper behaves as if stepper.last were that same tensor ((last - loss) always 0); " + what)
         else:
             ctx.fail(dict(case, segment=si), ("reset-behaviour: " if si else "continual: ") + what)
-    has_reuse = any(sg["reused"] for sg in segs)
-    if model_reply is not None and model_ok and (spec_ok or not has_reuse):
+    if model_reply is not None and model_ok:
         st_, toks = common.parse_reply(model_reply)
         want = [int(t) for t in toks] if st_ == "ok" else []
         if len(want) != 3 * len(real):
@@ -728,11 +724,12 @@ def itemwise_oracle(ctx, case, seg, vals, last, batch_obs, singles, batch_pc_inc
         one = pp().utils.ReduceToBason(steps=10 ** 9, patience=10 ** 9, decreasing=case["d"], tol=case["tol"])
         if last is not None:
             one.step(torch.tensor([last[i]], dtype=dt))
-            one._continual = True
         pc0 = one.patience_count
         one.step(torch.tensor([x], dtype=dt))
         nds.append(one.patience_count == pc0 + 1)
-        bls.append(not one.continual())
+        two = pp().utils.ReduceToBason(steps=10 ** 9, patience=10 ** 9, decreasing=case["d"], tol=case["tol"])
+        two.step(torch.tensor([x], dtype=dt))
+        bls.append(not two.continual())
     ok = True
     if (all(nds), all(bls)) != tuple(batch_obs):
         ctx.fail(case, f"itemwise: element-wise decisions of single steppers (nodec, below)={list(zip(nds, bls))} do not give "
@@ -753,11 +750,11 @@ def rtb_num_line(case):
             + " ".join(toks))
 
 
-def run_num_rtb(ctx: Ctx, n_cases, n_max):
-    cases = [gen_rtb_case(ctx, n_max) for _ in range(n_cases)]
+def run_num_rtb(ctx: Ctx, n_cases, n_max, long=False):
+    cases = [gen_rtb_case(ctx, n_max, long=long) for _ in range(n_cases)]
     reps = ctx.driver.run([rtb_num_line(c) for c in cases])
     for c, rep in zip(cases, reps):
-        check_rtb_num(ctx, c, rep)
+        guarded(ctx, c, check_rtb_num, ctx, c, rep)
         nsteps = sum(1 for e in c["events"] if e[0] == "S")
         ctx.note_case(("num.rtb", c["steps"], c["patience"], c["D"], c["TOL"], c["vkind"], c["dtype"], tuple(c["shape"]),
                        nsteps, sum(1 for e in c["events"] if e[0] == "R")), nsteps >= 2)
@@ -776,9 +773,10 @@ def gen_sop_case(ctx: Ctx, n_max):
     d = rng.choice([1e-3, 1e-3, 0.0, -0.5, 1.0, 0.125, 1e-6, 1e-2])
     D = U.rnd(d, dtype)
     has_reject = rng.random() < 0.7
-    steps = rng.choice([1, 2, 3, 4, 5, 6, 8, 10, 15, 30, 100, 0])
-    patience = rng.choice([1, 2, 2, 3, 3, 4, 5, 6, 0])
+    steps = rng.choice([1, 2, 3, 4, 5, 6, 8, 10, 15, 30, 100, 0, 10 ** 9])
+    patience = rng.choice([1, 2, 2, 3, 3, 4, 5, 6, 0, 10 ** 6])
     n = rng.randint(1, n_max)
+    extreme = rng.random() < 0.15
     script, loss, skipped = [], U.rnd(rng.choice(LADDER) * 10, dtype), 0
     for _ in range(n):
         last = loss if rng.random() < 0.9 else U.rnd(rng.choice(LADDER), dtype)
@@ -797,9 +795,9 @@ def gen_sop_case(ctx: Ctx, n_max):
             elif m < 0.8:
                 x = last * rng.choice([1.5, 2.0, 1 + 2.0 ** -20]) + rng.choice([0.0, 1e-9])
             else:
-                x = rng.choice(LADDER) * rng.choice([1.0, 1.7])
+                x = rng.choice(EXTREME[dtype] if (extreme and rng.random() < 0.5) else LADDER) * rng.choice([1.0, 1.7, -1.0])
             x = U.rnd(x, dtype)
-            if not math.isfinite(x):
+            if not math.isfinite(x) or not math.isfinite(U.rnd(last - x, dtype)):
                 x = last
             ex, fl = U.abs_nodec(last, x, D, dtype)
             if ex == fl:
@@ -812,20 +810,41 @@ def gen_sop_case(ctx: Ctx, n_max):
         loss = x
     ctx.count("num.sop.regenerated_near_threshold", skipped)
     return {"kind": "num.sop", "steps": steps, "patience": patience, "d": d, "D": D, "vkind": vkind, "dtype": dtype,
-            "has_reject": has_reject, "script": script}
+            "has_reject": has_reject, "layout": rng.choice(["fresh", "fresh", "slice", "reuse"]), "script": script}
 
 
 def check_sop_num(ctx: Ctx, case, model_reply=None) -> bool:
     ok = True
     opt = FakeOpt(case["has_reject"])
     sch = new_sop(case, opt)
-    conv = (lambda v: v) if case["vkind"] == "pyfloat" else (lambda v: torch.tensor(v, dtype=U.TD[case["dtype"]]))
+    layout = case.get("layout", "fresh") if case["vkind"] != "pyfloat" else "fresh"
+    dt = U.TD[case["dtype"]]
+    big = torch.full((5,), 9.75, dtype=dt)   # reuse: the optimizer updates its own last/loss tensors in place
     obs, codes = [], []
+    fp0 = fingerprint(sch)
     for i, (last, loss, rc) in enumerate(case["script"]):
         try:
-            opt.feed(conv(last), conv(loss), rc)
+            if case["vkind"] == "pyfloat":
+                a, b = last, loss
+            elif layout == "fresh":
+                a, b = torch.tensor(last, dtype=dt), torch.tensor(loss, dtype=dt)
+            else:
+                if layout == "slice":
+                    big = torch.full((5,), 9.75, dtype=dt)
+                big[1], big[3] = last, loss
+                a, b = big[1], big[3]
+            opt.feed(a, b, rc)
             sch.step(opt.loss)
             codes.append(U.ctl_code(sch))
+            if case["vkind"] != "pyfloat" and (float(a) != last or float(b) != loss or (layout != "fresh" and big.tolist() !=
+                                                [9.75, last, 9.75, loss, 9.75])):
+                ctx.fail(dict(case, step=i), f"purity: StopOnPlateau.step modified optimizer.last/.loss ({float(a)}, {float(b)}) "
+                                             f"!= ({last}, {loss})")
+                ok = False
+            if fingerprint(sch) != fp0:
+                ctx.fail(dict(case, step=i), f"attributes: step changed non-state attributes of the scheduler: {fp0} -> {fingerprint(sch)}")
+                ok = False
+                fp0 = fingerprint(sch)
         except Exception as e:
             ctx.fail(dict(case, step=i), f"raises: StopOnPlateau.step raised {type(e).__name__}: {str(e)[:120]}")
             return False
@@ -872,12 +891,122 @@ def run_num_sop(ctx: Ctx, n_cases, n_max):
     cases = [gen_sop_case(ctx, n_max) for _ in range(n_cases)]
     reps = ctx.driver.run([sop_num_line(c) for c in cases])
     for c, rep in zip(cases, reps):
-        check_sop_num(ctx, c, rep)
+        guarded(ctx, c, check_sop_num, ctx, c, rep)
         ctx.note_case(("num.sop", c["steps"], c["patience"], c["D"], c["vkind"], c["dtype"], c["has_reject"],
                        len(c["script"])), len(c["script"]) >= 2)
         ctx.count(f"num.sop.{c['vkind']}.{c['dtype']}")
         ctx.count("num.sop.steps", len(c["script"]))
         ctx.sample({"stream": "num.sop", **{k: v for k, v in c.items() if k != "script"}, "script_head": c["script"][:3]}, cap=12)
+
+
+# ----------------------------------------------------------------------------- several controllers alive at once
+
+class RtbPlayer:
+    def __init__(self, case):
+        self.case = case
+        self.st = pp().utils.ReduceToBason(steps=case["steps"], patience=case["patience"], decreasing=case["d"], tol=case["tol"])
+        self.seg = {"vkind": case["vkind"], "dtype": case["dtype"], "shape": case["shape"]}
+        self.feeder, self.i, self.codes = LossFeeder(self.seg), 0, []
+
+    def done(self):
+        return self.i >= len(self.case["events"])
+
+    def play(self):
+        ev = self.case["events"][self.i]
+        self.i += 1
+        if ev[0] == "R":
+            self.st.reset()
+            if len(ev) > 1 and ev[1]:
+                self.seg = dict(ev[1])
+            self.feeder = LossFeeder(self.seg)
+        else:
+            self.st.step(self.feeder.make(ev[1], ev[2] if len(ev) > 2 else "fresh"))
+        self.codes.append(U.ctl_code(self.st))
+
+
+class SopPlayer:
+    def __init__(self, case, opt=None):
+        self.case, self.opt = case, opt or FakeOpt(case["has_reject"])
+        self.sch, self.i, self.codes = new_sop(case, self.opt), 0, []
+
+    def done(self):
+        return self.i >= len(self.case["script"])
+
+    def play(self):
+        last, loss, rc = self.case["script"][self.i]
+        self.i += 1
+        dt = U.TD[self.case["dtype"]]
+        conv = (lambda v: v) if self.case["vkind"] == "pyfloat" else (lambda v: torch.tensor(v, dtype=dt))
+        self.opt.feed(conv(last), conv(loss), rc if hasattr(self.opt, "reject_count") else None)
+        self.sch.step(self.opt.loss)
+        self.codes.append(U.ctl_code(self.sch))
+
+
+def check_interleave(ctx: Ctx, case) -> bool:
+    """several controllers of both classes alive at once and stepped in an interleaved order behave exactly as each
+    one alone (no state outside the object: class attributes, module globals, shared tensors)"""
+    import random
+    subs = case["subs"]
+
+    def players(shared):
+        out, opt = [], None
+        for c in subs:
+            if c["kind"] == "num.rtb":
+                out.append(RtbPlayer(c))
+            else:
+                if shared and case["share_optimizer"]:
+                    opt = opt or FakeOpt(True)
+                    out.append(SopPlayer(c, opt))
+                else:
+                    out.append(SopPlayer(c))
+        return out
+    try:
+        alone = players(False)
+        for pl in alone:
+            while not pl.done():
+                pl.play()
+        together = players(True)
+        r = random.Random(case["order_seed"])
+        live = list(together)
+        while live:
+            pl = r.choice(live)
+            pl.play()
+            if pl.done():
+                live.remove(pl)
+    except Exception as e:
+        ctx.fail(case, f"raises: interleaved controllers raised {type(e).__name__}: {str(e)[:120]}")
+        return False
+    ok = True
+    for k, (a, b) in enumerate(zip(alone, together)):
+        if a.codes != b.codes:
+            j = next(i for i, (x, y) in enumerate(zip(a.codes, b.codes)) if x != y)
+            ctx.fail(case, f"interleave: controller {k} ({subs[k]['kind']}) at its event {j}: alone {U.st_decode(a.codes[j])}, "
+                           f"interleaved with {len(subs) - 1} other live controllers {U.st_decode(b.codes[j])}")
+            ok = False
+    return ok
+
+
+def gen_interleave_case(ctx: Ctx, n_max=14):
+    rng = ctx.rng
+    subs = []
+    for _ in range(rng.choice([2, 3, 4])):
+        if rng.random() < 0.6:
+            c = gen_rtb_case(ctx, n_max)
+        else:
+            c = gen_sop_case(ctx, n_max)
+            c["has_reject"] = True
+            c["script"] = [[a, b, 0 if rc is None else rc] for a, b, rc in c["script"]]
+        subs.append(c)
+    return {"kind": "interleave", "subs": subs, "share_optimizer": rng.random() < 0.5, "order_seed": rng.randrange(1 << 30)}
+
+
+def run_interleave(ctx: Ctx, n_cases):
+    for _ in range(n_cases):
+        c = gen_interleave_case(ctx)
+        guarded(ctx, c, check_interleave, ctx, c)
+        ctx.note_case(("interleave", tuple(x["kind"] for x in c["subs"]), c["order_seed"]), True)
+        ctx.count("interleave.cases")
+        ctx.count("interleave.controllers", len(c["subs"]))
 
 
 # ============================================================================= driver loops
@@ -939,8 +1068,10 @@ def check_opt_scripted(ctx: Ctx, case, want_model=True):
         loss = opt.step()
         sch.step(loss)
     code0, pre = U.ctl_code(sch), case["pre"]
+    tok = (object(), object(), object())
+    fp0 = fingerprint(sch)
     try:
-        sch.optimize(input=None)
+        sch.optimize(tok[0], tok[1], tok[2])
     except IndexError:
         ctx.fail(case, f"bound: scheduler.optimize still looping after {opt.calls - pre} optimizer steps "
                        f"(steps={case['steps']}, {pre} manual steps before)")
@@ -949,6 +1080,10 @@ def check_opt_scripted(ctx: Ctx, case, want_model=True):
         ctx.fail(case, f"raises: optimize raised {type(e).__name__}: {str(e)[:100]}")
         return None
     iters, final = opt.calls - pre, U.ctl_code(sch)
+    if iters > 0 and any(a is not b for a, b in zip(getattr(opt, "args", ()), tok)):
+        ctx.fail(case, "arguments: scheduler.optimize did not hand (input, target, weight) through to optimizer.step")
+    if fingerprint(sch) != fp0:
+        ctx.fail(case, f"attributes: optimize changed non-state attributes of the scheduler: {fp0} -> {fingerprint(sch)}")
     # the property: the loop runs until the first documented cause of the whole history, never beyond the budget
     first = U.spec_first_stop("sop", case["steps"], case["patience"], obs)
     want = 0 if (first is not None and first <= pre) else (first - pre)
@@ -972,7 +1107,7 @@ def check_opt_scripted(ctx: Ctx, case, want_model=True):
 
 def run_drv_optimize(ctx: Ctx, n_cases):
     cases = [gen_opt_case(ctx) for _ in range(n_cases)]
-    res = [check_opt_scripted(ctx, c) for c in cases]
+    res = [guarded(ctx, c, check_opt_scripted, ctx, c) for c in cases]
     reps = ctx.driver.run([r[0] for r in res if r])
     for (c, r), rep in zip([(c, r) for c, r in zip(cases, res) if r], reps):
         check_loop_reply(ctx, "drv.optimize", c, rep, r[1], r[2], r[3])
@@ -1084,7 +1219,7 @@ def run_drv_optimize_real(ctx: Ctx, n_cases):
     out = []
     for _ in range(n_cases):
         c = gen_opt_real_case(ctx)
-        r = check_opt_real(ctx, c)
+        r = guarded(ctx, c, check_opt_real, ctx, c)
         ctx.note_case(("drv.optimize.real", c["problem"], c["opt"], c["strategy"], c["damping"], c["reject"], c["steps"],
                        c["patience"], c["d"]), True)
         ctx.count(f"drv.optimize.real.{c['opt']}")
@@ -1210,7 +1345,16 @@ def check_mpc(ctx: Ctx, case):
             stub.costs = gen_costs(random.Random(call["seed"]), max(case["steps"], 1) + 4, D, TOL, call["mode"])
             mpc.lqr = stub
         try:
-            mpc(1, x0)
+            gcall = torch.Generator().manual_seed(call["seed"])
+            xin = x0 + (0.3 * torch.randn(x0.shape, generator=gcall) if ci else 0)
+            uin = torch.randn(1, T, nc, generator=gcall) if (call["seed"] % 3 == 0) else None
+            keep = [(xin, xin.clone())] + ([(uin, uin.clone())] if uin is not None else [])
+            fp_call = fingerprint(st)
+            mpc([1, 2, 0.5][call["seed"] % 3] if not case["real_lqr"] else 1, xin, u_init=uin)
+            if any(not torch.equal(a, b) for a, b in keep):
+                ctx.fail(dict(case, call=ci), "purity: MPC.forward modified x_init / u_init")
+            if mpc.stepper is not st or fingerprint(st) != fp_call:
+                ctx.fail(dict(case, call=ci), f"attributes: MPC.forward changed the stepper's configuration: {fp_call} -> {fingerprint(st)}")
         except IndexError:
             ctx.fail(dict(case, call=ci), f"bound: MPC.forward still looping after {len(rec)} controller steps (steps={case['steps']})")
             return None
@@ -1281,7 +1425,7 @@ def run_drv_mpc(ctx: Ctx, n_cases, n_real):
         if i >= n_cases:
             c["real_lqr"] = True
             c["tol"] = ctx.rng.choice([1e-5, -1e9])
-        r = check_mpc(ctx, c)
+        r = guarded(ctx, c, check_mpc, ctx, c)
         ctx.note_case(("drv.mpc", c["steps"], c["patience"], c["d"], c["tol"], c["k_inits"], c["real_lqr"],
                        tuple(x["mode"] for x in c["calls"])), True)
         ctx.count("drv.mpc.real_lqr" if c["real_lqr"] else "drv.mpc.scripted")
@@ -1299,32 +1443,60 @@ def run_drv_mpc(ctx: Ctx, n_cases, n_real):
 
 def gen_icp_case(ctx: Ctx):
     rng = ctx.rng
+    vary = rng.random() < 0.6      # every per-call argument varied between the calls on one ICP object
+
+    def call():
+        c = {"mode": rng.choice(["dec", "plateau", "walk", "walk", "below"]), "seed": rng.randrange(1 << 30)}
+        if vary:
+            c.update({"batch": rng.choice([[], [1], [2], [3], [2, 2]]), "dtype": rng.choice(["float32", "float64"]),
+                      "npts": rng.choice([3, 4, 5, 8]), "init": rng.choice([None, None, "given"]), "ord": rng.choice([2, 2, 1]),
+                      "layout": rng.choice(["fresh", "strided", "slice"])})
+        return c
     return {"kind": "drv.icp", "steps": rng.choice([1, 2, 3, 4, 5, 6, 8]), "patience": rng.choice([1, 2, 2, 3, 4]),
-            "d": rng.choice([1e-3, 0.5, 1.0]), "tol": rng.choice([1e-5, 1e-5, 2.0 ** -10, -1.0]),
+            "d": U.rnd(rng.choice([1e-3, 0.5, 1.0]), "float32"), "tol": U.rnd(rng.choice([1e-5, 1e-5, 2.0 ** -10, -1.0]), "float32"),
             "batch": rng.choice([[], [1], [2], [3]]), "dtype": rng.choice(["float32", "float64"]),
+            "module_init": (not vary) and rng.random() < 0.4,
             "scripted": rng.random() < 0.75, "data_seed": rng.randrange(1 << 30),
-            "calls": [{"mode": rng.choice(["dec", "plateau", "walk", "walk", "below"]), "seed": rng.randrange(1 << 30)}
-                      for _ in range(rng.choice([1, 2, 2, 3]))]}
+            "calls": [call() for _ in range(rng.choice([1, 2, 2, 3, 4]))]}
+
+
+def as_layout(t, layout):
+    """the same values as a non-contiguous view / a slice of a larger buffer"""
+    if layout == "strided" and t.dim() >= 2:
+        return t.transpose(-1, -2).contiguous().transpose(-1, -2)
+    if layout == "slice":
+        big = torch.full((t.numel() + 6,), 0.5, dtype=t.dtype)
+        big[3:3 + t.numel()] = t.flatten()
+        return big[3:3 + t.numel()].view(t.shape)
+    return t
 
 
 def check_icp(ctx: Ctx, case):
     import random
     import pypose.module.icp as icpmod
     P = pp()
-    dt = U.TD[case["dtype"]]
     g = torch.Generator().manual_seed(case["data_seed"])
-    bshape = tuple(case["batch"])
-    src = torch.randn(bshape + (4, 3), generator=g, dtype=dt)
-    tf = P.se3(0.3 * torch.randn(bshape + (6,), generator=g, dtype=dt)).Exp()
-    tgt = tf.unsqueeze(-2).Act(src)
     st = new_rtb(case)
-    icp = P.module.ICP(stepper=st)
-    B = int(math.prod(bshape)) if bshape else 1
-    D, TOL = U.rnd(case["d"], case["dtype"]), U.rnd(case["tol"], case["dtype"])
+    minit = P.se3(0.1 * torch.randn(6, generator=g, dtype=U.TD[case["dtype"]])).Exp() if case.get("module_init") else None
+    icp = P.module.ICP(init=minit, stepper=st)
+    minit_before = None if minit is None else minit.tensor().clone()
+    fp0 = fingerprint(st)
     oknn, osvd = icpmod.knn, icpmod.svdtf
     out = []
     try:
         for ci, call in enumerate(case["calls"]):
+            dtype = call.get("dtype", case["dtype"])
+            dt = U.TD[dtype]
+            bshape = tuple(call.get("batch", case["batch"]))
+            npts = call.get("npts", 4)
+            src = as_layout(torch.randn(bshape + (npts, 3), generator=g, dtype=dt), call.get("layout", "fresh"))
+            tf = P.se3(0.3 * torch.randn(bshape + (6,), generator=g, dtype=dt)).Exp()
+            tgt = as_layout(tf.unsqueeze(-2).Act(src).clone(), call.get("layout", "fresh"))
+            init = P.se3(0.1 * torch.randn(bshape + (6,), generator=g, dtype=dt)).Exp() if call.get("init") else None
+            keep = [(x, x.clone()) for x in (src, tgt)] + ([(init.tensor(), init.tensor().clone())] if init is not None else [])
+            B = int(math.prod(bshape)) if bshape else 1
+            D, TOL = U.rnd(case["d"], dtype), U.rnd(case["tol"], dtype)
+            case = dict(case, dtype=dtype)   # dtype of this call for the oracles below
             code0, pc0 = U.ctl_code(st), st.patience_count
             n_svd, rec, codes, expect = [0], [], [], []
             script = None
@@ -1364,7 +1536,10 @@ def check_icp(ctx: Ctx, case):
                 codes.append(U.ctl_code(st))
             icpmod.knn, icpmod.svdtf, st.step = sknn, csvd, rstep
             try:
-                icp(src, tgt)
+                kw = {"ord": call["ord"]} if "ord" in call else {}
+                if init is not None:
+                    kw["init"] = init
+                icp(src, tgt, **kw)
             except IndexError:
                 ctx.fail(dict(case, call=ci), f"bound: ICP.forward still looping after {len(rec)} controller steps (steps={case['steps']})")
                 return None
@@ -1373,6 +1548,14 @@ def check_icp(ctx: Ctx, case):
                 return None
             finally:
                 st.__dict__.pop("step", None)
+            for x, x0 in keep:
+                if not torch.equal(x, x0):
+                    ctx.fail(dict(case, call=ci), "purity: ICP.forward modified one of its arguments (source / target / init)")
+            if icp.stepper is not st or fingerprint(st) != fp0 or (icp.init is not minit) or \
+                    (minit is not None and not torch.equal(minit.tensor(), minit_before)):
+                ctx.fail(dict(case, call=ci), f"attributes: ICP.forward changed public attributes: stepper config {fp0} -> "
+                                              f"{fingerprint(st)}, init kept={icp.init is minit}")
+                fp0 = fingerprint(st)
             if not passed_ok(ctx, dict(case, call=ci), "ICP.forward", rec, expect[:len(rec)], case["dtype"]):
                 return None
             obs, last, amb = [], None, False
@@ -1397,7 +1580,7 @@ def run_drv_icp(ctx: Ctx, n_cases):
     res = []
     for _ in range(n_cases):
         c = gen_icp_case(ctx)
-        r = check_icp(ctx, c)
+        r = guarded(ctx, c, check_icp, ctx, c)
         ctx.note_case(("drv.icp", c["steps"], c["patience"], c["d"], c["tol"], tuple(c["batch"]), c["dtype"], c["scripted"],
                        tuple(x["mode"] for x in c["calls"])), True)
         ctx.count("drv.icp.scripted" if c["scripted"] else "drv.icp.genuine")
@@ -1413,25 +1596,124 @@ def run_drv_icp(ctx: Ctx, n_cases):
 
 # ============================================================================= entry points
 
-CORPUS = [
-    # minimal reproduction of defect D31 (repaired): stops on patience, reset, negative first loss
-    {"kind": "num.rtb", "steps": 10, "patience": 2, "d": 1e-3, "tol": -100.0, "D": 1e-3, "TOL": -100.0, "vkind": "t0d",
-     "dtype": "float64", "shape": [], "events": [["S", [1.0]], ["S", [1.0]], ["S", [1.0]], ["R"], ["S", [-1.0]], ["S", [-2.0]]]},
-    # boundaries: ratio == decreasing exactly, loss == tol exactly, zero loss, batch where one element decides
-    {"kind": "num.rtb", "steps": 9, "patience": 2, "d": 1.0, "tol": 0.5, "D": 1.0, "TOL": 0.5, "vkind": "batch",
-     "dtype": "float32", "shape": [2], "events": [["S", [8.0, 8.0]], ["S", [4.0, 8.0]], ["S", [2.0, 4.0]], ["S", [1.5, 3.0]],
-                                                  ["S", [0.5, 0.25]], ["S", [0.25, 0.25]], ["S", [0.0, 0.25]], ["S", [0.0, 0.0]]]},
-]
+def _rtb(steps, patience, d, tol, vkind, dtype, shape, events, itemwise=False):
+    cur = dtype
+    for ev in events:   # values as the dtype of their segment holds them
+        if ev[0] == "R" and len(ev) > 1:
+            cur = ev[1]["dtype"]
+        elif ev[0] == "S":
+            ev[1] = [U.rnd(v, cur) for v in ev[1]]
+    return {"kind": "num.rtb", "steps": steps, "patience": patience, "d": d, "tol": tol, "D": U.rnd(d, dtype),
+            "TOL": U.rnd(tol, dtype), "vkind": vkind, "dtype": dtype, "shape": shape, "itemwise": itemwise, "events": events}
+
+
+def corpus_cases():
+    """deterministic corner corpus (seed independent), one entry per class of corner"""
+    S = lambda v, lay="fresh": ["S", v, lay]
+    halving = [S([2.0 ** -k], "reuse") for k in range(8)]
+    plateau = [S([1.0]) for _ in range(300)]
+    return [
+        # D31 (repaired): stops on patience, reset, negative first loss
+        _rtb(10, 2, 1e-3, -100.0, "t0d", "float64", [], [S([1.0]), S([1.0]), S([1.0]), ["R"], S([-1.0]), S([-2.0])]),
+        # D34 (repaired): halving losses delivered through ONE buffer updated in place
+        _rtb(20, 2, 1e-3, 1e-9, "t0d", "float32", [], halving),
+        _rtb(20, 2, 1e-3, 1e-9, "batch", "float64", [2], [S([2.0 ** -k, 3.0 * 2.0 ** -k], "reuse") for k in range(8)]),
+        # boundaries: ratio == decreasing exactly, loss == tol exactly, zero loss, one element decides
+        _rtb(9, 2, 1.0, 0.5, "batch", "float32", [2], [S([8.0, 8.0]), S([4.0, 8.0]), S([2.0, 4.0], "slice"), S([1.5, 3.0], "strided"),
+                                                      S([0.5, 0.25]), S([0.25, 0.25], "expanded"), S([0.0, 0.25]), S([0.0, 0.0])], True),
+        # mixed regimes in one batch: zero, negative, exact threshold, huge, tiny — item by item
+        _rtb(50, 3, 0.5, 1.0, "batch", "float64", [5], [S([0.0, -1.0, 3.0, 1e300, 1e-300]), S([0.0, -2.0, 2.0, 1e299, 1e-300]),
+                                                       S([0.0, -1.0, 2.0, 1e299, 5e-324]), S([0.5, -0.5, 0.5, 0.5, 0.5]),
+                                                       S([0.25, 0.25, 0.25, 0.25, 1.0]), S([0.25, 0.25, 0.25, 0.25, 0.999])], True),
+        _rtb(50, 2, 1e-3, 1e-5, "batch", "float32", [3], [S([1e38, 1e-40, 1.0]), S([3e38, 1.4e-45, 1.0]), S([1e38, 0.0, 1.0]),
+                                                          S([1e-6, 1e-6, 1e-6]), S([9e-6, 1e-6, 1e-6])], True),
+        # object re-use: kind / dtype / shape change after every reset, python numbers, ints
+        _rtb(6, 2, 0.5, 0.25, "pyfloat", "float32", [], [S([8.0]), S([4.0]), ["R", {"vkind": "batch", "dtype": "float64", "shape": [2, 2]}],
+                                                         S([8.0, 8.0, 8.0, 8.0]), S([8.0, 8.0, 8.0, 2.0], "strided"), S([8.0, 8.0, 8.0, 2.0]),
+                                                         ["R", {"vkind": "t0d", "dtype": "float32", "shape": []}], S([1.0], "slice"), S([0.125]),
+                                                         ["R", {"vkind": "batch", "dtype": "float32", "shape": [3]}], S([1.0, 2.0, 3.0]),
+                                                         S([1.0, 2.0, 3.0]), S([1.0, 2.0, 3.0]), S([0.1, 0.1, 0.1])]),
+        _rtb(7, 3, 1.0, 3.0, "pyint", "float32", [], [S([96.0]), S([48.0]), S([47.0]), S([47.0]), S([3.0]), S([2.0]), S([0.0]), S([-4.0])]),
+        # degenerate / huge configurations
+        _rtb(0, 1, 1e-3, 1e-5, "t0d", "float64", [], [S([3.0]), S([1.0]), ["R"], S([1.0])]),
+        _rtb(-1, 0, 1e-3, 1e-5, "t0d", "float64", [], [S([3.0]), S([1.0])]),
+        _rtb(10 ** 9, 10 ** 6, 0.0, -1e9, "t0d", "float64", [], [S([1.0]), S([1.0]), S([0.5]), S([0.5])]),
+        # long history: counters beyond 256, patience 257 reached exactly at step 258, budget 290
+        _rtb(290, 257, 1e-3, 1e-9, "t0d", "float32", [], plateau),
+    ]
+
+
+CORPUS = corpus_cases()
+
+
+def corpus_drivers():
+    mk = lambda mode, seed: {"mode": mode, "seed": seed}
+    mpcs = [{"kind": "drv.mpc", "steps": s, "patience": p, "d": 1e-3, "tol": -1e9, "k_inits": k, "real_lqr": False,
+             "calls": [mk("plateau", 3), mk("neg", 4), mk("dec", 6)]}
+            for s, p, k in ((1, 2, 1), (2, 2, 1), (2, 1, 2), (5, 2, 1), (10, 5, 3))]
+    icps = [{"kind": "drv.icp", "steps": s, "patience": p, "d": 1e-3, "tol": 9.765625e-4, "batch": b, "dtype": "float32",
+             "scripted": True, "module_init": False, "data_seed": 11,
+             "calls": [dict(mk("plateau", 5), batch=b, dtype="float32", npts=4, init=None, ord=2, layout="fresh"),
+                       dict(mk("below", 6), batch=[3], dtype="float64", npts=5, init="given", ord=2, layout="strided"),
+                       dict(mk("dec", 7), batch=[], dtype="float32", npts=3, init=None, ord=1, layout="slice")]}
+            for s, p, b in ((1, 1, []), (4, 2, [2]), (6, 3, [2, 2]))]
+    return mpcs, icps
+
+
+def run_corpus(ctx: Ctx):
+    """runs first and does not depend on VERIF_SEED: hand-written corners + every stream with a fixed generator"""
+    import random
+    cases = [dict(c) for c in CORPUS]
+    reps = ctx.driver.run([rtb_num_line(c) for c in cases])
+    for i, (c, rep) in enumerate(zip(cases, reps)):
+        guarded(ctx, c, check_rtb_num, ctx, c, rep)
+        ctx.note_case(("corpus", i), True)
+    mpcs, icps = corpus_drivers()
+    res = []
+    for c in mpcs:
+        res += [("drv.mpc", c, x) for x in (guarded(ctx, c, check_mpc, ctx, c) or [])]
+    for c in icps:
+        res += [("drv.icp", c, x) for x in (guarded(ctx, c, check_icp, ctx, c) or [])]
+    reps = ctx.driver.run([x[0] for _, _, x in res])
+    for (stream, c, x), rep in zip(res, reps):
+        check_loop_reply(ctx, stream, c, rep, x[1], x[2], x[3])
+    ctx.count("corpus.handwritten", len(cases) + len(mpcs) + len(icps))
+    saved = ctx.rng
+    ctx.rng = random.Random(0xC20)
+    try:
+        run_trie(ctx, "sop", core_configs(), 4)
+        run_trie(ctx, "rtb", core_configs()[::3], 3)
+        run_num_rtb(ctx, 260, 40)
+        run_num_rtb(ctx, 4, 420, long=True)
+        run_num_sop(ctx, 220, 40)
+        run_interleave(ctx, 40)
+        run_drv_optimize(ctx, 200)
+        run_drv_mpc(ctx, 120, 3)
+        run_drv_icp(ctx, 50)
+    finally:
+        ctx.rng = saved
+
+
+def guarded(ctx: Ctx, case, fn, *args):
+    """a misbehaving implementation (exception outside the places the checks already wrap) is a failing input of
+    the property, never a crash of the harness"""
+    import traceback
+    try:
+        return fn(*args)
+    except common.InfraError:
+        raise
+    except Exception as e:
+        tb = traceback.format_exc()
+        if "/pypose/" not in tb:
+            raise
+        ctx.fail(case, f"raises: implementation raised {type(e).__name__}: {str(e)[:150]} | {tb.strip().splitlines()[-3][:120]}")
+        return None
 
 
 def run(ctx: Ctx):
     rng = ctx.rng
     q = ctx.quick
-    # corpus first
-    reps = ctx.driver.run([rtb_num_line(c) for c in CORPUS])
-    for c, rep in zip(CORPUS, reps):
-        check_rtb_num(ctx, dict(c), rep)
-        ctx.note_case(("corpus", CORPUS.index(c)), True)
+    run_corpus(ctx)
     core = core_configs()
     extra = extra_configs(rng, 14 if q else 80)
     depth = 12 if q else 16
@@ -1439,9 +1721,9 @@ def run(ctx: Ctx):
     run_graph(ctx, "rtb", core + extra, depth)
     if q:
         run_trie(ctx, "sop", core, 5)
-        run_trie(ctx, "sop", rng.sample(core, 4), 6)
+        run_trie(ctx, "sop", rng.sample(core, 3), 6)
         run_trie(ctx, "rtb", core, 4)
-        run_trie(ctx, "rtb", rng.sample(core, 4), 5)
+        run_trie(ctx, "rtb", rng.sample(core, 3), 5)
     else:
         sh = list(core)
         rng.shuffle(sh)
@@ -1450,12 +1732,14 @@ def run(ctx: Ctx):
         run_trie(ctx, "sop", rng.sample(core, 1), 8)
         run_trie(ctx, "rtb", core, 5)
         run_trie(ctx, "rtb", sh[:8], 6)
-    run_num_rtb(ctx, ctx.pick(1000, 3000), 40 if q else 150)
-    run_num_sop(ctx, ctx.pick(1000, 3000), 40 if q else 150)
-    run_drv_optimize(ctx, ctx.pick(600, 5000))
+    run_num_rtb(ctx, ctx.pick(700, 2500), 40 if q else 150)
+    run_num_rtb(ctx, ctx.pick(3, 12), 420 if q else 1500, long=True)
+    run_num_sop(ctx, ctx.pick(700, 2500), 40 if q else 150)
+    run_interleave(ctx, ctx.pick(60, 400))
+    run_drv_optimize(ctx, ctx.pick(400, 4000))
     run_drv_optimize_real(ctx, ctx.pick(30, 200))
-    run_drv_mpc(ctx, ctx.pick(300, 2000), ctx.pick(15, 100))
-    run_drv_icp(ctx, ctx.pick(100, 600))
+    run_drv_mpc(ctx, ctx.pick(200, 2000), ctx.pick(12, 100))
+    run_drv_icp(ctx, ctx.pick(70, 500))
 
 
 def search(ctx: Ctx):
@@ -1511,6 +1795,8 @@ def replay(ctx: Ctx, case) -> bool:
         check_rtb_num(ctx, c, ctx.driver.run([rtb_num_line(c)])[0])
     elif kind == "num.sop":
         check_sop_num(ctx, c, ctx.driver.run([sop_num_line(c)])[0])
+    elif kind == "interleave":
+        check_interleave(ctx, c)
     elif kind == "drv.optimize":
         r = check_opt_scripted(ctx, c)
         if r:
